@@ -46,6 +46,7 @@ func Exec(c *core.Ctx, cs *core.Case) {
 	c.R.Evaluations++
 	ev(c, cs)
 	c.End()
+	c.Remember(cs)
 }
 
 // Safely runs f and converts a panic into (true, description).
